@@ -41,7 +41,7 @@ ASSUMPTIONS = ["call-level interleavings only (single-threaded); thread pre-empt
                "chain spans cover every time used in the process except in the dedicated K3 scenario"]
 REQUIRED = ["C10:fresh-identical", "C10:after-history", "C10:interleaved", "C10:all-interleavings"]
 REQUIRED_CATS = ["kind:chain", "kind:spot", "kind:discrete", "history:abandon", "history:full", "history:otherfold", "history:error",
-                 "history:insolvency", "scenario:K3-construction", "kind:default-state"]
+                 "history:insolvency", "history:windowed", "scenario:K3-construction", "kind:default-state"]
 TECHNIQUE = "runtime monitoring: twin-run comparison of canonical call digests; exhaustive call-level interleavings of two short episodes"
 LEVEL_TEXT = ("Exploration plus an exhaustive enumeration of the call-level interleavings of two short episodes for a few environment "
               "pairs. Bit-identical digests are required between a run alone and the same run after other episodes / interleaved with "
@@ -231,7 +231,7 @@ def case(ctx, i, tier):
     # the same object after other episodes
     hist = []
     for _ in range(rng.randint(1, 3)):
-        m = rng.choice(["abandon", "full", "error", "otherfold", "insolvency"])
+        m = rng.choice(["abandon", "full", "error", "otherfold", "insolvency", "windowed"])
         hist.append(m)
         ctx.cat("history:" + m)
         if m == "abandon":
@@ -240,6 +240,17 @@ def case(ctx, i, tier):
             episode(A, list(reversed(aA)), fold)
         elif m == "otherfold":
             episode(A, aA, "late" if fold != "late" else "training-set", upto=2)
+        elif m == "windowed":
+            # an episode confined to a sampled window (reset's own episode_length argument)
+            try:
+                np.random.seed(ctx.np_seed)
+                A.reset(fold, episode_length=rng.choice([2, 3]))
+                for _k in range(rng.randint(0, 3)):
+                    A.step(aA[_k])
+            except EndOfEpisodeError:
+                pass
+            except ValueError:
+                ctx.cat("history:windowed-refused")
         elif m == "error":
             A.reset(fold)
             try:
